@@ -45,6 +45,11 @@ CHECKS = {
     technique="TLA+ spec of request queues / pending responses / handler (Epr.tla): TLC checks invariants + liveness over all interleavings per scenario; ALL schedules of the real Executor (stateless DFS) are trace-validated by TLC (EprTrace) with the property invariants evaluated in every state",
     text="Per scenario (13 quick / 16 thorough: both roles, keep and measure, same and different sockets and remotes, responses before recv_epr, deferred keep responses followed by keep or measure requests, per-pair waits) TLC explores every interleaving of instruction steps, deliveries and retries of the specification that mirrors the handler and checks: no handler error, consumed at most once, consumed by the owner request as pair k (owner computed from issue and arrival order, independently of the mechanism), retirement after exactly tot pairs, used = mapped + reserved, no overwrite of an allocated virtual qubit, waits only pass when defined, termination and draining under fairness. The rig then forces EVERY schedule on the real Executor (exhaustive stateless DFS pruned by projected state) and TLC validates each as a behaviour of Epr, comparing queues, pending list, result arrays, unit module, used set and pc after every action.",
     note="Trusted: TLC, harness/rig.py (EprRun). Environment assumption: per (role, remote, purpose) responses arrive in generation order. The overtaking defect TLC found in the base handler was repaired in /repo (4376902); the spec mirrors the repaired handler (Scn.fix = no-overtake) and still contains the base variant."),
+ "C13": dict(
+    engine="ctrl", category="model_checking", design="5 C13",
+    technique="TLA+ spec of the controller (Controller.tla: application lifecycle, global physical-qubit pool, interleaved subroutines, keep responses) model-checked by TLC to a depth bound; histories of the real QNodeController/Executor (bounded exhaustive DFS + long random walks) trace-validated by TLC (ControllerTrace) with the property invariants evaluated in every state",
+    text="TLC explores all histories of register/stop/re-register, library subroutines of 2 applications interleaved at instruction grain, keep deliveries onto any unused physical qubit and retries, to depth 14 (quick) / 17 (thorough), checking: no two allocated virtual qubits share a physical qubit, in-use = mapped + reserved (= mapped when nothing is pending), an action only changes the applications it acts for, stop releases exactly the application's qubits and all its state, an unregistered id can always be registered. The same operations are performed on the real controller through real message bytes; an exhaustive DFS to depth 7/9 and 200/1500 random walks of 120/300 operations over up to 3 applications and unit modules 1..4 are validated by TLC against the specification, projecting every application's registers, arrays, shared memory, unit module, the used set, pending responses and the shared-memory registry.",
+    note="Trusted: TLC, harness/rig.py (ControllerRun). Depth-bounded exploration; no unbounded (inductive) proof was built. The re-registration defect found by this check was repaired in /repo (8d4c1be)."),
 }
 
 REASON_TODO = "check not built yet (work in progress; see DESIGN.md section 9)"
